@@ -10,10 +10,6 @@ open Optyx.Generated.PinsC08
 
 /-- `solve_lp` (solvers/lp_solver.py) -/
 theorem pin_lp_solver_solve_lp_anchor : pin_lp_solver_solve_lp = "244fed8ae6b2b560" := rfl
-/-- `extract_linear_coefficient` (analysis.py) -/
-theorem pin_analysis_extract_linear_coefficient_anchor : pin_analysis_extract_linear_coefficient = "8356a37b6239dea1" := rfl
-/-- `extract_constant_term` (analysis.py) -/
-theorem pin_analysis_extract_constant_term_anchor : pin_analysis_extract_constant_term = "56af33ef128b1672" := rfl
 /-- `Problem._validate_expression` (problem.py) -/
 theorem pin_problem_Problem_validate_expression_anchor : pin_problem_Problem_validate_expression = "c1cde4a100b85f9c" := rfl
 /-- `Problem._validate_constraint` (problem.py) -/
@@ -24,7 +20,7 @@ theorem pin_problem_Problem_only_simple_bounds_anchor : pin_problem_Problem_only
 theorem pin_problem_Problem_has_equality_constraints_anchor : pin_problem_Problem_has_equality_constraints = "56258a35419a78c5" := rfl
 
 /-- every function the model of C08 transcribes (and no translator covers) is the one it was read from -/
-theorem anchors : pin_lp_solver_solve_lp = "244fed8ae6b2b560" ∧ pin_analysis_extract_linear_coefficient = "8356a37b6239dea1" ∧ pin_analysis_extract_constant_term = "56af33ef128b1672" ∧ pin_problem_Problem_validate_expression = "c1cde4a100b85f9c" ∧ pin_problem_Problem_validate_constraint = "86c81ec384d8e567" ∧ pin_problem_Problem_only_simple_bounds = "db45e87281100d80" ∧ pin_problem_Problem_has_equality_constraints = "56258a35419a78c5" :=
-  ⟨pin_lp_solver_solve_lp_anchor, pin_analysis_extract_linear_coefficient_anchor, pin_analysis_extract_constant_term_anchor, pin_problem_Problem_validate_expression_anchor, pin_problem_Problem_validate_constraint_anchor, pin_problem_Problem_only_simple_bounds_anchor, pin_problem_Problem_has_equality_constraints_anchor⟩
+theorem anchors : pin_lp_solver_solve_lp = "244fed8ae6b2b560" ∧ pin_problem_Problem_validate_expression = "c1cde4a100b85f9c" ∧ pin_problem_Problem_validate_constraint = "86c81ec384d8e567" ∧ pin_problem_Problem_only_simple_bounds = "db45e87281100d80" ∧ pin_problem_Problem_has_equality_constraints = "56258a35419a78c5" :=
+  ⟨pin_lp_solver_solve_lp_anchor, pin_problem_Problem_validate_expression_anchor, pin_problem_Problem_validate_constraint_anchor, pin_problem_Problem_only_simple_bounds_anchor, pin_problem_Problem_has_equality_constraints_anchor⟩
 
 end Optyx.Props.PinsC08
